@@ -3,6 +3,7 @@ import PsVerif.Model.Cipher
 import PsVerif.Model.T1Encode
 import Driver.Canon
 import PsVerif.Model.PFB
+import PsVerif.Model.Names
 /-!
 `psdriver`: reads one case per line from stdin, prints the model's canonical result
 line for each.  A line the driver cannot parse gives `bad-op` (never a default).
@@ -57,6 +58,18 @@ def handle (line : String) : String :=
         hexOfBytes (ofU8 c.1) ++ ":" ++ (match c.2 with
           | none => "nil" | some .eof => "EOF" | some .unexpectedEOF => "unexpectedEOF" | some .invalidPFB => "invalidPFB")))
     | _, _, _ => "bad-op"
+  | ["tou", d, h] =>
+    match bytesOfHex h with
+    | some bs => String.intercalate "," ((Names.toUnicode bs (d == "1")).map toString)
+    | none => "bad-op"
+  | ["fromu", r] =>
+    match r.toNat? with
+    | some r => hexOfBytes (Names.fromUnicode r)
+    | none => "bad-op"
+  | ["valid", h] =>
+    match bytesOfHex h with
+    | some bs => toString (Names.isValid bs)
+    | none => "bad-op"
   | ["eexecdec", r, h] =>
     match r.toNat?, bytesOfHex h with
     | some r, some bs => hexOfBytes (ofU8 (Cipher.decrypt (UInt16.ofNat r) (toU8 bs)))
